@@ -1,3 +1,4 @@
+import RxnModel.Generated.Facts
 import RxnModel.Proofs.Runner
 import RxnModel.Model.RunnerRF
 import RxnModel.Props.C20
@@ -383,6 +384,11 @@ example : (RunnerRF.exec demoCfg (RunnerRF.init 2 true)
      .take, .run .sAdd, .run .sIsFull, .take, .run .sAdd, .run .sIsFull, .run .sFlush, .run .sSend]).map
       (fun p => (delivered p.r 0, p.r.stream.length, p.rf.out.length)) =
     some ([.keyed ⟨[], 1, 0⟩, .keyed ⟨[], 2, 0⟩], 0, 2) := by decide
+
+/-- the hypothesis `handoffBuffered = false` of every theorem is the code (regenerated structural fact, hard
+obligation): in `newBatchingOperator` the `batches` channel is made without a capacity, assigned nowhere else, and never
+sent on in a select with a default -/
+theorem handoff_unbuffered_shape : Facts.c04HandoffUnbuffered = 1 := by decide
 
 /-! negative witness: the theorems are about the *unbuffered* hand-off of `batchingOperator` (the router blocks until
 the operator goroutine takes the batch). With a one-slot channel a full batch can sit in the channel while the
